@@ -636,22 +636,52 @@ Definition copy_model (k : conn_kind) (client_segs backend_segs : list bytes) : 
   | BUdp => mkRaw 1 [concat client_segs] (first_of backend_segs) 1
   end.
 
-(* dns-proxy.  Datagram branch: the datagram is forwarded (before it is parsed); event and
-   reply only when it parses as a DNS message ([parses] = oracle: miekg/dns Unpack).
-   Stream branch: ONE Read of the client (its first write, no length prefix handling),
-   which must parse; it is forwarded; ONE Read of the backend is relayed back
-   ([got] = how much of the reply that single Read returned: kernel timing, an input). *)
+(* DNS over a stream (RFC 1035 4.2.2): a message is preceded by its length in two bytes.
+   io.ReadFull(c, p): Reads until p is full; a Read takes at most what is left of the
+   first pending segment and leaves the rest of that segment pending. *)
+Fixpoint take (segs : list bytes) (n : nat) : option (bytes * list bytes) :=
+  match n with
+  | O => Some ([], segs)
+  | _ =>
+      match segs with
+      | [] => None                                   (* end of stream / deadline before p is full *)
+      | s :: r =>
+          if (length s <? n)%nat then
+            match take r (n - length s) with
+            | Some (b, rest) => Some (s ++ b, rest)
+            | None => None
+            end
+          else Some (firstn n s, match skipn n s with [] => r | t => t :: r end)
+      end
+  end.
+
+Definition pfx (n : nat) : bytes := [N.of_nat (n / 256); N.of_nat (n mod 256)].
+
+(* readMsg: the two length bytes, then that many bytes *)
+Definition read_msg (segs : list bytes) : option (bytes * list bytes) :=
+  match take segs 2 with
+  | Some ([a; b], r1) => take r1 (N.to_nat (a * 256 + b))
+  | _ => None
+  end.
+
+(* dns-proxy.  Datagram branch: the datagram is forwarded, recorded (decoded, or with its
+   payload when it is not a DNS message) and the first answer returned.  Stream branch:
+   one length-framed message is read however it is cut; it must unpack ([parses] =
+   oracle: miekg/dns Unpack of the framed message), is recorded, forwarded with its
+   length in one write, and one length-framed answer is read and returned the same way. *)
 Definition dns_model (k : conn_kind) (client_segs : list bytes) (parses : bool)
-                     (backend_segs : list bytes) (got : nat) : raw_out :=
+                     (backend_segs : list bytes) : raw_out :=
   match type_switch k with
   | BDefault => raw_nothing
-  | BUdp =>
-      if parses then mkRaw 1 [concat client_segs] (first_of backend_segs) 1
-      else mkRaw 1 [concat client_segs] [] 0
+  | BUdp => mkRaw 1 [concat client_segs] (first_of backend_segs) 1
   | BTcp =>
-      match client_segs with
-      | [] => raw_nothing
-      | q :: _ => if parses then mkRaw 1 [q] [firstn got (concat backend_segs)] 1 else raw_nothing
+      match read_msg client_segs with
+      | None => raw_nothing
+      | Some (q, _) =>
+          if parses then
+            mkRaw 1 [pfx (length q) ++ q]
+                  (match read_msg backend_segs with Some (a, _) => [pfx (length a) ++ a] | None => [] end) 1
+          else raw_nothing
       end
   end.
 
